@@ -23,7 +23,7 @@ RULE = ("A real parse_folder.main() is run in-process on generated jobs (2-3 pag
 ASSUMPTIONS = ["kills inside a write (torn files) are outside the statement and are not injected",
                "pages are processed sequentially (--process-count 1) so that 'between two consecutive writes' is well defined"]
 
-ID_SETS = [("a", "a.xml.b", "scan.v2"), ("p", "p.jpg.1"), ("x.logits.y", "x", "a 1"), ("doc-1", "doc-1.v2", "b.jpg"),
+ID_SETS = [("a", "a.xml.b", "scan.v2"), ("p", "p.jpg.1", ".cover"), ("x.logits.y", "x", "a 1"), ("doc-1", "doc-1.v2", "b.jpg"),
            tuple("p%d" % i for i in range(1, 12))]
 LINES = (2, 1, 3, 1, 1, 2, 1, 1, 1, 2, 1)
 SUBSETS = [tuple(k for k, bit in zip(F.OUTPUT_KINDS, bits) if bit) for bits in itertools.product((0, 1), repeat=5) if any(bits)]
@@ -97,7 +97,7 @@ def run_case(ctx, ids, subset, crashes):
     W = len(ref_writes)
     job = get_job(ids)
     _COUNTER[0] += 1
-    name = "run%d" % _COUNTER[0]
+    name = ("run%d" if _COUNTER[0] % 2 else "run[%d] a*b?")  % _COUNTER[0]      # output folders are arbitrary paths
     outs = F.out_dirs(job["root"], name, subset)
     smx = (len(subset) + sum(crashes)) % 2 == 1      # every other case also passes --skipp-missing-xml (all XML inputs exist)
     desc = lambda: "ids=%r outputs=%r crash positions=%r skipp-missing-xml=%r (uninterrupted run makes %d writes: %r)" % (ids, subset, crashes, smx, W, ref_writes)
@@ -226,8 +226,67 @@ def strat_multi():
     return st.tuples(st.sampled_from(ID_SETS), st.sampled_from(SUBSETS), st.lists(st.integers(0, 9), min_size=2, max_size=3).map(tuple))
 
 
+# ---------------------------------------------------------------- resumed runs with several worker processes
+_PR = {}
+
+
+def parallel_cases(tier):
+    done = (1, 3, 4) if tier == "quick" else (0, 1, 2, 3, 4)
+    procs = (2, 4) if tier == "quick" else (2, 3, 4, 8)
+    return [(d, p) for d in done for p in procs]
+
+
+def body_parallel(ctx, case):
+    """the real script in a subprocess with --process-count > 1: after an interrupted run only a few pages are left,
+    often fewer than worker processes."""
+    import subprocess
+    import sys
+    n_done, procs = case
+    ids = ["q1", "q2", "q3", "q4"]
+    kinds = ("xml", "render")
+
+    def run_script(argv):
+        script = os.path.join(os.environ.get("VERIF_REPO", "/repo"), "user_scripts", "parse_folder.py")
+        p = subprocess.run([sys.executable, script] + argv[1:], stdout=subprocess.PIPE, stderr=subprocess.STDOUT, text=True, timeout=600)
+        return p.returncode, p.stdout
+    if "job" not in _PR:
+        d = os.path.join(root(), "parallel")
+        os.makedirs(d)
+        job = F.make_job(d, ids, [2, 1, 1, 2], [11, 12, 13, 14])
+        with open(job["config"], "w") as f:       # model-free stages only
+            f.write("[PAGE_PARSER]\nRUN_LAYOUT_PARSER = no\nRUN_LINE_CROPPER = yes\nRUN_OCR = no\nRUN_DECODER = no\n\n"
+                    "[LINE_CROPPER]\nINTERP = 2\nLINE_SCALE = 1\nLINE_HEIGHT = 16\n")
+        ref = F.out_dirs(d, "ref", kinds)
+        rc, out = run_script(F.argv_for(job, ref, process_count=1))
+        ctx.check(rc == 0 and "ERROR" not in out, "reference_run_fails", lambda: "rc=%r %s" % (rc, out[-500:]))
+        _PR.update(job=job, ref=ref, snap=F.snapshot(ref), n=0)
+    job, ref = _PR["job"], _PR["ref"]
+    _PR["n"] += 1
+    outs = F.out_dirs(job["root"], "res%d" % _PR["n"], kinds)
+    desc = lambda: "%d of 4 pages complete before the run, --process-count %d" % (n_done, procs)
+    try:
+        for k in kinds:
+            os.makedirs(outs[k])
+        for pid in ids[:n_done]:
+            shutil.copy(os.path.join(ref["xml"], pid + ".xml"), outs["xml"])
+            shutil.copy(os.path.join(ref["render"], pid + ".jpg"), outs["render"])
+        rc, out = run_script(F.argv_for(job, outs, skip=True, process_count=procs))
+        ctx.check(rc == 0 and "ERROR" not in out, "resumed_run_fails", lambda: "rc=%r %s; " % (rc, out[-500:]) + desc())
+        for pid in ids[:n_done]:
+            ctx.check("Processing %s\n" % pid not in out, "complete_page_processed_again", lambda: "page %s; " % pid + desc())
+        diff = F.diff_snapshots(_PR["snap"], F.snapshot(outs))
+        ctx.check(not diff, "resumed_parallel_run_differs_from_uninterrupted_run", lambda: "%r; " % (diff,) + desc())
+        if 0 < 4 - n_done < procs:
+            ctx.event("fewer_pages_left_than_processes")
+        if n_done < 4:
+            ctx.nontrivial(("parallel", case))
+    finally:
+        shutil.rmtree(os.path.dirname(outs["xml"]), ignore_errors=True)
+
+
 UNITS = [
     Unit("single_crash", "enum", body=body, cases=single_cases, exhaustive=True, known=KNOWN, shards_quick=8),
     Unit("crash_sequences", "enum", body=body, cases=multi_cases, exhaustive=True, known=KNOWN, quick_enum=False),
     Unit("sampled_sequences", "given", body=body, strategy=strat_multi, quick=48, thorough=400, known=KNOWN, shards_quick=8, shrink_quick=False),
+    Unit("parallel_resume", "enum", body=body_parallel, cases=parallel_cases, exhaustive=True, shards_quick=3, shards_thorough=5),
 ]
